@@ -95,7 +95,7 @@ def normalize_type(type_expression, evaluate_name=None) -> Type:
                     return ClassType(type_object.__name__, {
                         f: normalize_type(v, evaluate_name)
                         for f, v in vars(type_object).items()
-                        if not f.startswith('___')
+                        if not f.startswith('__')
                     })
                 return ClassType(type_object.__name__, {})
             return type_object
